@@ -99,8 +99,11 @@ TraceNext ==
        \/ /\ e.ev = "NewModel"
           /\ NewModel(e.x)
           /\ verdict' = Worse(verdict, JudgeStep(e))
-       \/ /\ e.ev = "Declare"
-          /\ Declare(e.x)
+       \/ /\ e.ev = "DeclareHead"
+          /\ DeclareHead(e.x)
+          /\ verdict' = Worse(verdict, JudgeStep(e))
+       \/ /\ e.ev = "DeclareRest"
+          /\ DeclareRest(e.x)
           /\ verdict' = Worse(verdict, JudgeStep(e))
        \/ /\ e.ev = "Main"
           /\ Main(e.x, e.k = 1)
